@@ -26,33 +26,6 @@ from . import invalidate
 AS = 'mystic.abstract_solver:AbstractSolver'
 
 
-def _decided(atom, lits):
-    """True / False / None: what the path literals entail about `atom` (truth table over their atoms; `is not` read as not `is`)"""
-    import itertools
-    from .. import pathcond as PC
-
-    def norm(t_):
-        if isinstance(t_, tuple) and t_ and t_[0] == 'cmp' and t_[1] == 'isnot':
-            return ('not', ('cmp', 'is') + t_[2:])
-        if isinstance(t_, tuple) and t_ and t_[0] in ('and', 'or', 'not'):
-            return (t_[0],) + tuple(norm(x) for x in t_[1:])
-        return t_
-    fs = [norm(c) if tr else ('not', norm(c)) for c, tr in lits if not (c[0] == 'const')]
-    atoms = [atom]
-    for f_ in fs:
-        for a in PC.leaves(f_):
-            if a not in atoms:
-                atoms.append(a)
-    if len(atoms) > 12:
-        return None
-    seen = set()
-    for bits in itertools.product((False, True), repeat=len(atoms)):
-        val = dict(zip(atoms, bits))
-        if all(PC.ev(f_, val) for f_ in fs):
-            seen.add(val[atom])
-    return seen.pop() if len(seen) == 1 else None
-
-
 @rule('C02.a', min_instances=4)
 def the_gate(ctx):
     """wrap_bounds (roles from the data flow, not from names): in the gated wrapper the target is reachable only through the false branch of a predicate over (x, lower, upper) that is true for every ordering with a coordinate outside [lower, upper], the true branch returns inf and the target receives the tested x; lower / upper - whatever the closure variables are called - hold the caller's own min / max (asarray is transparent) or an all -inf / +inf default only where that bound is None; the un-gated wrapper is defined only where both bounds are None"""
@@ -152,7 +125,7 @@ def the_gate(ctx):
             continue          # a flag (`bounds = False`) contradicts the branch taken: infeasible
         if d in plain:
             n_u += 1
-            ctx.check(_decided(none_min, lits) is True and _decided(none_max, lits) is True, 'wrap_bounds#unbounded',
+            ctx.check(decided(none_min, lits) is True and decided(none_max, lits) is True, 'wrap_bounds#unbounded',
                       'the pass-through wrapper is defined only where min is None and max is None',
                       'the un-gated wrapper is selected on a path that has not established that both bounds are None: %s' % p.describe(6), outer, d)
             continue
@@ -162,9 +135,9 @@ def the_gate(ctx):
             verdict = None
             for pname, atom, sign, role in ((pmin, none_min, -1, 'lower'), (pmax, none_max, 1, 'upper')):
                 want = inf_t if sign > 0 else T.simp(T.pneg(inf_t))
-                if v == ('name', pname) and _decided(atom, lits) is False:
+                if v == ('name', pname) and decided(atom, lits) is False:
                     verdict = role
-                elif v[0] == 'listcomp' and len(v[1]) == 1 and v[1][0] == want and _decided(atom, lits) is True:
+                elif v[0] == 'listcomp' and len(v[1]) == 1 and v[1][0] == want and decided(atom, lits) is True:
                     verdict = role
             if verdict is None:
                 ctx.bad('wrap_bounds#closure-' + name, 'the gate compares with %s = %s, which is neither the caller\'s own bound nor the infinite default for a missing '
